@@ -389,11 +389,6 @@ def aggRows (hargs : List HTerm) (envs : List Env) : Option (List Tuple) :=
 def headRows (hargs : List HTerm) (envs : List Env) : Option (List Tuple) :=
   optMapM (fun env => optMapM (HTerm.plain env) hargs) envs
 
-/-- head tuples from a bag of body valuations. `none` = outside the evaluable fragment
-    (a head variable without value, `avg`). -/
-def headOf (r : Rule) (envs : List Env) : Option (List Tuple) :=
-  if r.hasAgg then aggRows r.hargs envs else headRows r.hargs envs
-
 /-- Spec reading of an aggregate head: one row per distinct binding of the plain head terms, every
     head term — plain or aggregate — *in its head position*. -/
 def aggRowsSpec (hargs : List HTerm) (envs : List Env) : Option (List Tuple) :=
@@ -410,6 +405,12 @@ def aggRowsSpec (hargs : List HTerm) (envs : List Env) : Option (List Tuple) :=
 
 def headOfSpec (r : Rule) (envs : List Env) : Option (List Tuple) :=
   if r.hasAgg then aggRowsSpec r.hargs envs else headRows r.hargs envs
+
+/-- head tuples from a bag of body valuations, as the engine emits them (`none` = outside the evaluable
+    fragment: a head variable without value, `avg`). Since the repair of `build_aggregation` (a `Map` restoring the
+    head order on top of the `Aggregate` node) this is the Spec reading; `aggRows` above describes the
+    unrepaired plan (keys first, aggregates last) and is kept for reference only. -/
+def headOf (r : Rule) (envs : List Env) : Option (List Tuple) := headOfSpec r envs
 
 /-- The tuples one rule derives from a database (given as a lookup function): Spec reading. -/
 def evalRuleLk (lk : String → List Tuple) (r : Rule) : Option (List Tuple) := headOfSpec r (bodyEnvs lk r)
